@@ -249,7 +249,8 @@ def run(run):
                         body = mutate(r, txt)
                         cls = "module-mutant"
                     else:
-                        body = 'version: "3"\n' + r.choice(LITERALS)
+                        # (pushed down by 0..12 lines: the module is then longer than the file importing it)
+                        body = 'version: "3"\n' + "// pad\n" * r.choice([0, 0, 3, 7, 12]) + r.choice(LITERALS)
                         cls = "module-literal"
                     nested = r.random() < 0.4
                     open(os.path.join(d, "sub", "inner.fcp"), "w").write(body)
